@@ -6,6 +6,30 @@ import subprocess
 ROOT = os.path.dirname(os.path.dirname(os.path.abspath(__file__)))
 
 CHECKS = {
+    "C19": dict(
+        technique="TLA+ state machine of the module tables (JaxleyModule.tla) + integer simulation oracle (ProbeSim.tla), "
+                  "model-checked by TLC; dumped state graph replayed call by call on the real module with projection "
+                  "compare after every call, refused calls must raise, integrate compared with TLC's integers",
+        category="model_checking", design="4/C19",
+        text="Every public editing call is one TLA+ action on abstract tables (channels with a shared column, parameters, "
+             "trainables, groups, recordings, inputs). TLC checks ChannelParamsExactlyWherePresent, RegistryMatchesTables, "
+             "RefsExist, DeleteUndoesInsert, DeleteKeepsOthers, IntegrateIsPure ... on all histories to depth 3-4 over operation x "
+             "view x value; the state graph to depth 2 (full alphabet) and depth 3 (channel alphabet, sampled in quick) is executed "
+             "on the real cell: after every call every public table, get_all_parameters/get_all_states and (where recordings "
+             "exist) integrate's output must equal the specification's successor state / integer observation.",
+        note="Trusted: TLC; probe channels make the dynamics integer exact; one irregular cell, 7 views. Known findings F18-F20 "
+             "are listed in known_findings.json."),
+    "C10": dict(
+        technique="same TLA+ module specification restricted to the parameter alphabet (insert/set/make_trainable/"
+                  "delete_trainables/write_trainables/record) to depth 3; replay with Eff(k) compare and metamorphic "
+                  "set == data_set == make_trainable+params on every Set transition",
+        category="model_checking", design="4/C10",
+        text="Eff(k) (table column overridden by the trainables on exactly their groups' rows) is part of the abstract state; "
+             "TrainablesTouchOnlyTheirRows / TrainablesReachTheirRows / WriteStoresSimulated are checked by TLC; every replayed "
+             "transition compares get_all_parameters/get_all_states with Eff, and every Set transition is also performed via "
+             "data_set and via make_trainable and simulated.",
+        note="Trusted: TLC; value tokens {1,2}; sharing by module/branch/compartment; views include ones that exclude the "
+             "module's last compartment."),
     "C11": dict(
         technique="TLA+ state machine of view selection (Views.tla) model-checked by TLC; the complete closed state graph "
                   "(-dump dot,actionlabels) is replayed transition by transition on the real module, disabled selectors must raise",
